@@ -184,7 +184,7 @@ let run_engine (id, lines) =
            | _ -> (kind, r)) in
         if !noop then Printf.printf "%s %d result noop\n" id !step else
         (match kind with
-         | "plan" ->
+         | "plan" | "planchecked" ->
              (match r with
               | v :: rest ->
                   let rec pairs = function
@@ -193,7 +193,12 @@ let run_engine (id, lines) =
                   let places = pairs rest in
                   let u = unit_of_stop i (int_of_string (List.hd rest)) in
                   let mv = { mv_unit = i2n u; mv_vehicle = i2n (int_of_string v); mv_places = places } in
-                  let (s', res) = exec_move i s mv in
+                  let (s', res) =
+                    if kind = "plan" then exec_move i s mv
+                    else begin
+                      Printf.printf "%s %d move executable %b\n" id !step (move_executable i s mv);
+                      exec_checked i s mv
+                    end in
                   !sols.(!cur) <- s';
                   Printf.printf "%s %d result %s\n" id !step (result_string res)
               | _ -> failwith "bad plan op")
@@ -209,6 +214,36 @@ let run_engine (id, lines) =
              let k = int_of_string (List.hd r) in
              if k < Array.length !sols then cur := k;
              Printf.printf "%s %d result done\n" id !step
+         | "q_seqs" ->
+             let u = unit_of_stop i (int_of_string (List.hd r)) in
+             let un = get_unit i (i2n u) in
+             let ords = all_orders un.iu_stops un.iu_arcs in
+             let strs = List.sort compare (List.map (fun o -> String.concat "-" (List.map (fun x -> string_of_int (n2i x)) o)) ords) in
+             Printf.printf "%s %d Q spec : %s\n" id !step (String.concat " " strs);
+             Printf.printf "%s %d result done\n" id !step
+         | "q_gens" ->
+             (match r with
+              | v :: order ->
+                  let v = int_of_string v in
+                  let order = List.map int_of_string order in
+                  let u = unit_of_stop i (List.hd order) in
+                  let outs =
+                    if unit_planned i s (i2n u) || v >= List.length s.st_routes then [] else begin
+                      let route = List.map (fun c -> n2i c.c_stop) (List.nth s.st_routes v) in
+                      let rarr = Array.of_list route in
+                      let is_direct a b =
+                        let ua = unit_of_stop i a in
+                        ua >= 0 && List.exists (fun ((x, y), d) -> d && n2i x = a && n2i y = b) (get_unit i (i2n ua)).iu_arcs in
+                      let split g = let g = n2i g in g >= 1 && g < Array.length rarr && is_direct rarr.(g-1) rarr.(g) in
+                      let oarr = Array.of_list order in
+                      let pair k = let k = n2i k in k + 1 < Array.length oarr && is_direct oarr.(k) oarr.(k+1) in
+                      let res = generate_all split pair (i2n (List.length order)) (i2n (List.length route - 1)) in
+                      List.sort compare (List.map (fun l -> String.concat "," (List.map (fun x -> string_of_int (n2i x)) l)) res)
+                    end in
+                  Printf.printf "%s %d gens %s\n" id !step (String.concat " " outs);
+                  Printf.printf "%s %d result done\n" id !step
+              | _ -> failwith "bad q_gens")
+         | "q_best" -> Printf.printf "%s %d result done\n" id !step
          | "snapall" ->
              Printf.printf "%s %d result done\n" id !step;
              Array.iteri (fun j sj -> snapshot (Printf.sprintf "%s S%d" id j) !step i sj) !sols
